@@ -1,0 +1,46 @@
+//! Verification hooks (only compiled with `--cfg datatrash_mos_verif`).
+//!
+//! A per-thread pass observer that is called after every assembly pass with the
+//! codegen context and the diagnostics of that pass. Returning `true` stops the pass loop.
+use crate::codegen::CodegenContext;
+use crate::errors::Diagnostics;
+use crate::parser::code_map::Span;
+use std::cell::RefCell;
+
+pub type PassObserver = Box<dyn FnMut(&CodegenContext, &Diagnostics) -> bool>;
+
+thread_local! {
+    static PASS_OBSERVER: RefCell<Option<PassObserver>> = RefCell::new(None);
+}
+
+/// Install (or remove) the pass observer of the current thread.
+pub fn set_pass_observer(observer: Option<PassObserver>) {
+    PASS_OBSERVER.with(|o| *o.borrow_mut() = observer);
+}
+
+pub(crate) fn observe_pass(ctx: &CodegenContext, errors: &Diagnostics) -> bool {
+    PASS_OBSERVER.with(|o| match o.borrow_mut().as_mut() {
+        Some(f) => f(ctx, errors),
+        None => false,
+    })
+}
+
+impl CodegenContext {
+    /// Index of the pass that has just been run
+    pub fn verif_pass_idx(&self) -> usize {
+        self.pass_idx
+    }
+
+    /// The current undefined set: (scope index, identifier path, span)
+    pub fn verif_undefined(&self) -> Vec<(usize, String, Option<Span>)> {
+        self.undefined
+            .iter()
+            .map(|u| (u.scope_nx.index(), u.id.to_string(), u.span))
+            .collect()
+    }
+
+    /// Name of the current segment, if any
+    pub fn verif_current_segment(&self) -> Option<String> {
+        self.current_segment.as_ref().map(|s| s.to_string())
+    }
+}
